@@ -16,20 +16,31 @@ Proof. exact ref_text_roundtrip. Qed.
 Theorem C17_ref_display_length : forall n, n < 2 ^ 128 -> length (ref_display n) = 32%nat.
 Proof. exact ref_display_length. Qed.
 
-(* ---- UniqueId: every index and time, every NON-NEGATIVE random ---- *)
+(* ---- UniqueId (unique_id.rs as of /repo commit 680c0119): every index, time and random; never panics ---- *)
 Theorem C17_uid_text_roundtrip : forall index time random,
-  index < 2 ^ 32 -> time < 2 ^ 32 -> (0 <= random < 2 ^ 63)%Z ->
+  index < 2 ^ 32 -> time < 2 ^ 32 -> (- 2 ^ 63 <= random < 2 ^ 63)%Z ->
   uid_from_str (uid_display index time random) = Ok (index, time, random).
 Proof. exact uid_text_roundtrip. Qed.
-(* the pinned code refutes the property for negative random parts: witness, and the whole class *)
-Theorem C17_uid_text_refuted : exists index time random,
+Theorem C17_uid_display_length : forall index time random,
+  index < 2 ^ 32 -> time < 2 ^ 32 -> (- 2 ^ 63 <= random < 2 ^ 63)%Z ->
+  length (uid_display index time random) = 32%nat.
+Proof. exact uid_display_length. Qed.
+Theorem C17_uid_from_str_no_panic : forall s, uid_from_str s <> Panic.
+Proof. exact uid_from_str_no_panic. Qed.
+(* for the record, the code before that commit (DESIGN F17): refuted for negative random parts -- witness, and
+   the whole class -- and only those *)
+Theorem C17_uid_pre_fix_refuted : exists index time random,
   index < 2 ^ 32 /\ time < 2 ^ 32 /\ (- 2 ^ 63 <= random < 2 ^ 63)%Z /\
-  uid_from_str (uid_display index time random) <> Ok (index, time, random).
-Proof. exact uid_text_refuted. Qed.
-Theorem C17_uid_text_negative_fails : forall index time random,
+  uid_from_str_pre_fix (uid_display index time random) <> Ok (index, time, random).
+Proof. exact uid_pre_fix_refuted. Qed.
+Theorem C17_uid_pre_fix_negative_fails : forall index time random,
   index < 2 ^ 32 -> time < 2 ^ 32 -> (- 2 ^ 63 <= random < 0)%Z ->
-  uid_from_str (uid_display index time random) = Err PIE_POS.
-Proof. exact uid_text_negative_fails. Qed.
+  uid_from_str_pre_fix (uid_display index time random) = Err PIE_POS.
+Proof. exact uid_pre_fix_negative_fails. Qed.
+Theorem C17_uid_pre_fix_roundtrip : forall index time random,
+  index < 2 ^ 32 -> time < 2 ^ 32 -> (0 <= random < 2 ^ 63)%Z ->
+  uid_from_str_pre_fix (uid_display index time random) = Ok (index, time, random).
+Proof. exact uid_pre_fix_roundtrip. Qed.
 
 (* ---- BrickColor over the regenerated table: all 2^16 numbers ---- *)
 Theorem C17_brick_from_number_u16 : forall n, n < 65536 ->
